@@ -927,13 +927,15 @@ func fillWithSameType(fieldType reflect.Type, value reflect.Value, mapValue any,
 	if fieldType.Kind() == reflect.Ptr {
 		baseType := Deref(fieldType)
 		target := reflect.New(baseType).Elem()
-		setSameKindValue(baseType, target, mapValue)
+		if err := setSameKindValue(baseType, target, mapValue); err != nil {
+			return err
+		}
+
 		value.Set(target.Addr())
-	} else {
-		setSameKindValue(fieldType, value, mapValue)
+		return nil
 	}
 
-	return nil
+	return setSameKindValue(fieldType, value, mapValue)
 }
 
 // 获取字典 m 中给定键 key 的值，键的格式可为 parentKey.childKey。
@@ -1010,10 +1012,17 @@ func readKeys(key string) []string {
 	return keys
 }
 
-func setSameKindValue(targetType reflect.Type, target reflect.Value, value any) {
-	if reflect.ValueOf(value).Type().AssignableTo(targetType) {
+func setSameKindValue(targetType reflect.Type, target reflect.Value, value any) error {
+	valueType := reflect.ValueOf(value).Type()
+	switch {
+	case valueType.AssignableTo(targetType):
 		target.Set(reflect.ValueOf(value))
-	} else {
+	case valueType.ConvertibleTo(targetType):
 		target.Set(reflect.ValueOf(value).Convert(targetType))
+	default:
+		// 同类（Kind 相同）但类型不可转换，如 [3]int 之于 [2]int、另一种 struct、chan、func。
+		return errTypeMismatch
 	}
+
+	return nil
 }
